@@ -42,7 +42,7 @@ func (c17) Meta() fw.Meta {
 			"the race detector sees only races that happen in the executed schedules; in-flight overlap is measured and a trial without overlap does not count as non-trivial",
 			"requests carry their clock (now) so sequential and concurrent executions are comparable bit for bit",
 		},
-		Obligations: []string{"handle_trials", "handle_concurrent_calls", "sum_trials", "sum_concurrent_calls", "sum_out_of_order_forced", "server_trials", "server_concurrent_requests", "endpoint_view", "endpoint_view_raw", "endpoint_sum", "endpoint_items", "endpoint_files", "cli_race_runs", "max_in_flight_ge2", "requests_differing_only_in_clock", "sum_error_path_trials", "trials_with_never_written_archives", "served_file_locked_over_1s"},
+		Obligations: []string{"handle_trials", "handle_concurrent_calls", "sum_trials", "sum_concurrent_calls", "sum_out_of_order_forced", "server_trials", "server_concurrent_requests", "endpoint_view", "endpoint_view_raw", "endpoint_sum", "endpoint_items", "endpoint_files", "cli_race_runs", "max_in_flight_ge2", "requests_differing_only_in_clock", "sum_error_path_trials", "trials_with_never_written_archives", "served_file_locked_over_1s", "requests_after_a_failed_request"},
 		Race:        true,
 		Workers:     6,
 	}
@@ -626,6 +626,37 @@ func c17Server(c *fw.Ctx) {
 	if len(bads) > 0 {
 		c.Violationf("concurrent-response-differs", fw.J{"clients": P, "problems": bads[:minI(len(bads), 4)], "layout": l},
 			"with %d parallel clients a response differs from the same request served alone: %s", P, bads[0])
+	}
+	// a request that fails after its file was opened (an archive id the file does not have, from > until) must not keep
+	// the file: the next request for the same file is answered, with what it returns when executed alone
+	if !c.Violated() {
+		f := files[0]
+		good := baseURL + fmt.Sprintf("/view?file=%s&retention=-1&from=%s&until=%s&now=%s", url.QueryEscape(f), ts(now-l.MaxRet()), ts(now), ts(now))
+		short := &http.Client{Timeout: 20 * time.Second}
+		_, ref, _, rerr := httpGet(short, good)
+		for _, badq := range []string{
+			fmt.Sprintf("/view?file=%s&retention=%d&from=%s&until=%s&now=%s", url.QueryEscape(f), len(l.Archs)+2, ts(now-l.MaxRet()), ts(now), ts(now)),
+			fmt.Sprintf("/view?file=%s&retention=0&from=%s&until=%s&now=%s", url.QueryEscape(f), ts(now-5), ts(now-50), ts(now)),
+		} {
+			if rerr != nil {
+				break
+			}
+			bcode, _, _, _ := httpGet(short, baseURL+badq)
+			if bcode < 400 {
+				continue // not a failing request on this tree
+			}
+			_, again, _, err := httpGet(short, good)
+			c.Count("requests_after_a_failed_request", 1)
+			if err != nil {
+				c.Violationf("request-after-failed-request-not-answered", fw.J{"failed_request": badq, "next_request": good, "err": err.Error()},
+					"after a request for %s failed (status %d), the next request for the same file was not answered within 20 s: %v", f, bcode, err)
+				break
+			}
+			if !bytes.Equal(again, ref) {
+				c.Violationf("concurrent-response-differs", fw.J{"failed_request": badq, "next_request": good}, "the response for %s after a failed request differs from the one before it", f)
+				break
+			}
+		}
 	}
 	stopServer(srv)
 	out := srvOut.String()
